@@ -1106,6 +1106,9 @@ func (w *World) kvFindFirst(fn *ssa.Function) (bool, string) {
 					continue
 				}
 				a := atoms[k]
+				if (a.Kind == "eqk" || a.Kind == "ltk") && a.K < 0 && strip(a.X) == strip(rl.Idx) {
+					continue // the index of the current element compared with a negative constant: decided, not a condition
+				}
 				if a.Kind == "eq" && val && ((isKey(a.X) && wanted(a.Y)) || (isKey(a.Y) && wanted(a.X))) {
 					nKey++
 					continue
